@@ -327,6 +327,19 @@ func main() {
 						}
 						return true
 					}
+					if id, ok := n.Fun.(*ast.Ident); ok && id.Name == "len" && len(n.Args) == 1 {
+						// what a simulator-owned channel holds is in the simulator's queue
+						if _, isBuiltin := p.TypesInfo.Uses[id].(*types.Builtin); isBuiltin {
+							if t := p.TypesInfo.TypeOf(n.Args[0]); t != nil {
+								if _, isChan := t.Underlying().(*types.Chan); isChan {
+									n.Fun = &ast.SelectorExpr{X: ast.NewIdent("__simrt"), Sel: ast.NewIdent("ChanLen")}
+									needSimrt, changed = true, true
+									nChan++
+								}
+							}
+						}
+						return true
+					}
 					if id, ok := n.Fun.(*ast.Ident); ok && id.Name == "close" && len(n.Args) == 1 {
 						if _, isBuiltin := p.TypesInfo.Uses[id].(*types.Builtin); isBuiltin {
 							n.Fun = &ast.SelectorExpr{X: ast.NewIdent("__simrt"), Sel: ast.NewIdent("ChanClose")}
